@@ -443,6 +443,9 @@ func runC04(c *engine.Ctx) {
 			}}, "error exits precede ControlManager.Add/Control.Start; success exits follow both")
 		c.Floor(1, 1)
 	}
+
+	// ---- R8 the configured scopes are the enforced scopes ----
+	checkValidationExact(c, "R8")
 }
 
 // extractOf matches component idx of the result tuple of a call to obj.
